@@ -770,6 +770,21 @@ class CallMixin:
         self.hstore(s, l, 'len', n + 1)
         return [(SNone(), s)]
 
+    def lm_insert(self, l, args, kwargs, st, node):
+        """l.insert(i, x): Python clamps i into [0, len] (negative i counts from the end first)"""
+        if 'cat' in l.cls.fields or not isinstance(args[0], SInt):
+            raise Unsupported('list.insert')
+        s = st.copy()
+        n = self.hload(s, l, 'len')
+        i = args[0].t
+        i = z3.If(i < 0, z3.If(i + n < 0, 0, i + n), z3.If(i > n, n, i))
+        old = self.hload(s, l, 'elems')
+        x = self.coerce(s, args[1], l.cls.e)
+        j = z3.Int(s.fresh.name('ji'))
+        self.hstore(s, l, 'elems', z3.Lambda([j], z3.If(j < i, z3.Select(old, j), z3.If(j == i, x, z3.Select(old, j - 1)))))
+        self.hstore(s, l, 'len', n + 1)
+        return [(SNone(), s)]
+
     def lm_extend(self, l, args, kwargs, st, node):
         src = args[0]
         if not (isinstance(src, SVal) and src.t.get_id() in self.stable_lists):
